@@ -724,6 +724,11 @@ class Executor:
             if isinstance(k, int):
                 if not -len(obj.items) <= k < len(obj.items):
                     raise PyRaise('IndexError', 'list assignment index out of range')
+                if obj.kind == 'ndarray' and isinstance(obj.items[k], VList) and is_scalar(exact(v)):
+                    row = obj.items[k]
+                    row.items[:] = [v] * len(row.items)
+                    self._mutated(obj, 'setitem')
+                    return
                 obj.items[k] = v
                 self._mutated(obj, 'setitem')
                 return
@@ -733,6 +738,17 @@ class Executor:
                 return
             if isinstance(k, tuple) and len(k) == 2 and all(isinstance(x, int) for x in k) and isinstance(obj.items[k[0]], VList):
                 obj.items[k[0]].items[k[1]] = v
+                self._mutated(obj, 'setitem')
+                return
+            if isinstance(k, (VList, list)) and all(isinstance(i, int) and not isinstance(i, bool) for i in (k.items if isinstance(k, VList) else k)):
+                idx = k.items if isinstance(k, VList) else k
+                vals = [v] * len(idx) if is_scalar(exact(v)) else self.iterate(v)
+                if len(vals) != len(idx):
+                    raise PyRaise('ValueError', 'shape mismatch in fancy assignment')
+                for i, x in zip(idx, vals):
+                    if not -len(obj.items) <= i < len(obj.items):
+                        raise PyRaise('IndexError', 'fancy index out of range')
+                    obj.items[i] = x
                 self._mutated(obj, 'setitem')
                 return
             raise Unsupported('setitem %s[%s]' % (vrepr(obj), vrepr(k)))
@@ -1277,6 +1293,12 @@ class Executor:
                 return self.getitem(obj.items[k[0]], k[1])
             if isinstance(k, Tm):
                 return Tm('getitem', obj, k)
+            if isinstance(k, (VList, list)) and all(isinstance(i, int) and not isinstance(i, bool) for i in (k.items if isinstance(k, VList) else k)):
+                idx = k.items if isinstance(k, VList) else k
+                try:
+                    return VList([obj.items[i] for i in idx], 'ndarray')
+                except IndexError:
+                    raise PyRaise('IndexError', 'fancy index out of range')
             raise Unsupported('index %s of list' % vrepr(k))
         if isinstance(obj, VDict):
             if isinstance(k, (Tm, z3.ExprRef)):
@@ -1426,6 +1448,10 @@ class Executor:
                 return PyFn(lambda x: self.np_any(x), 'numpy.any')
             if name == 'all':
                 return PyFn(lambda x: self.np_all(x), 'numpy.all')
+            if name in ('empty', 'zeros', 'ones'):
+                return PyFn(lambda shape, *a, _n=name, **k: self.np_alloc(_n, shape), 'numpy.' + name)
+            if name == 'sum':
+                return PyFn(lambda x, *a, **k: self.np_sum(x, *a, **k), 'numpy.sum')
             if name in ('minimum', 'maximum'):
                 return PyFn(lambda a, b, _n=name: self.minmax(_n[:3], [a, b]), 'numpy.' + name)
         if root == 'functools' and name == 'partial':
@@ -1446,6 +1472,31 @@ class Executor:
         if is_scalar(x):
             return x
         raise Unsupported('numpy.array(%s)' % vrepr(x))
+
+    def np_alloc(self, which, shape):
+        if isinstance(shape, VList):
+            shape = tuple(shape.items)
+        if isinstance(shape, int):
+            shape = (shape,)
+        if not (isinstance(shape, tuple) and all(isinstance(n, int) for n in shape)):
+            return Tm('call:numpy.' + which, shape)
+        fill = {'empty': None, 'zeros': 0, 'ones': 1}[which]
+
+        def mk(dims):
+            if len(dims) == 1:
+                return VList([Tm('uninit') if fill is None else fill for _ in range(dims[0])], 'ndarray')
+            return VList([mk(dims[1:]) for _ in range(dims[0])], 'ndarray')
+        return mk(shape)
+
+    def np_sum(self, x, *a, **k):
+        if isinstance(x, (tuple, VList)) and not a and not k:
+            items = x.items if isinstance(x, VList) else x
+            if all(is_scalar(exact(i)) for i in items):
+                r = 0
+                for i in items:
+                    r = self.binop(ast.Add(), r, i)
+                return r
+        return Tm('call:numpy.sum', x, *a, *[('kw', kk, v) for kk, v in sorted(k.items())])
 
     def np_any(self, x):
         if isinstance(x, VList):
